@@ -242,7 +242,7 @@ class Detector(object):
             return measure
 
         elif self.ndim == 2 and self.space_ndim == 3:
-            scalar_out = (np.shape(param) == (2,))
+            scalar_out = (np.broadcast(*param).shape == ())
             deriv = self.surface_deriv(param)
             if deriv.ndim > 2:
                 # Vectorized, need to reshape (N, 2, 3) to (2, N, 3)
